@@ -238,4 +238,33 @@ theorem digitString_err {s : Str} {e : Err} (h : digitString s = .error e) : e =
   · cases h
   · injection h with h; exact h.symm
 
+/-! ### internal group addresses -/
+
+/-- a normalised internal address text: "i-" followed by a non-empty stripped rest -/
+def IgaRaw (r : Str) : Prop := ∃ q, r = 105 :: 45 :: q ∧ q ≠ [] ∧ strip q = q
+
+theorem igaParse_str_raw (s r : Str) (h : igaParse (.str s) = .ok r) : IgaRaw r := by
+  unfold igaParse at h
+  simp only at h
+  split at h
+  · rename_i c0 c1 rest
+    split at h
+    · cases h
+    · generalize (if (c1 == 45 || c1 == 95) = true then 2 else 1) = pl at h
+      split at h
+      · cases h
+      · rename_i hne
+        injection h with h
+        refine ⟨_, h.symm, ?_, strip_idem _⟩
+        intro he
+        apply hne
+        rw [he]; rfl
+  · cases h
+
+theorem igaParse_of_raw (r : Str) (h : IgaRaw r) : igaParse (.str r) = .ok r := by
+  obtain ⟨q, rfl, hq, hs⟩ := h
+  have hne : q.isEmpty = false := by cases q <;> simp_all
+  have hi : 105 ∈ XknxVerif.Generated.Unicode.lowerIsI := by decide
+  simp [igaParse, hi, hs, hne]
+
 end XknxVerif.Address
